@@ -10,7 +10,7 @@ from gridrv.oracles import c14ref, sph
 PROP = "C14"
 TITLE = "Multipole moments equal direct quadrature of their defining integrands"
 REQUIRED_HOOKS = ["Grid.moments", "utils.generate_orders_horton_order", "utils.dipole_moment_of_molecule"]
-REQUIRED_FAMILIES = ["random-grid", "real-grid", "dipole", "generator", "hostile"]
+REQUIRED_FAMILIES = ["random-grid", "real-grid", "dipole", "generator", "hostile", "centre-list"]
 BUDGET = {"quick": 300, "thorough": 2400}
 TOL = 1e-10
 # Rows of the harmonic types that vanish (or nearly vanish) for the given geometry - e.g. m != 0 rows for points on the z axis -
@@ -31,6 +31,10 @@ RULE = (
     "AngularGrid, PeriodicGrid, LocalGrid, OneDGrid rules and transformed radial grids (flat (N,) points) x types x orders; dipole = random molecules (1-5 atoms) on random/Mol/Uniform "
     "grids against sum Z(R-Rcm) - sum w rho (p-Rcm); generator = all types x orders 0..12 x dim; hostile = centre on a grid "
     "point, points on / near (cone 0.1-0.5 rad) the z axis, narrow cones 1e-6..1e-1 rad (decided against the row envelope only, loss of digits recorded), duplicate centres, huge dynamic range, integer-typed inputs, non-contiguous views. "
+    "dipole grids: the molecule's own MolGrid/AtomGrid, plain/uniform grids, and MolGrids/AtomGrids built on a permuted atom order, "
+    "displaced positions or another molecule than the coords/charges arguments (the helper must use its arguments). centre-list = one "
+    "call whose centre list mixes distant centres (1e3..1e11 x extent) before/between/after ordinary ones, all types and dimensions: "
+    "every column == the same call with that centre alone == the reversed list (1e-12 of the row scale), caller arrays unchanged. "
     "A case is non-trivial when at least one monitored call returned and was compared."
 )
 ASSUMPTIONS = [
@@ -44,6 +48,9 @@ TECHNIQUE = "runtime monitoring: post-conditions on Grid.moments, generate_order
 TYPES = c14ref.TYPES
 REAL_GRIDS = ["atomgrid", "atomgrid-offcentre", "molgrid", "uniform3d", "uniform2d", "tensor3d", "tensor2d", "angular", "periodic", "localgrid", "grid-col1d", "onedgrid-rule", "onedgrid-transformed"]
 HOSTILE = ["centre-on-point", "z-axis", "near-axis", "narrow-cone", "duplicate-centres", "dynamic-range", "integer-inputs", "views", "single-point", "zero-weights", "rejected-orders", "flat-centres"]
+# the grid handed to the dipole helper vs. the molecule described by its coords/charges arguments: the same molecule, or a grid
+# object that carries atom positions of its own (MolGrid.atcoords, AtomGrid.center) which differ from the arguments
+DIPOLE_GRIDS = ["random", "molgrid", "uniform", "atomgrid", "molgrid-permuted", "molgrid-displaced", "molgrid-other-molecule", "atomgrid-elsewhere"]
 _state = {"ctx": None, "narrow": None}
 
 
@@ -68,8 +75,15 @@ def cases(tier, seed):
                     if t == "pure-radial" and L == 0:
                         continue
                     out.append(("real-grid", {"grid": g, "type": t, "order": L, "k": k}, 4.0 + L))
-    for k in range(40 if tier == "quick" else 1000):
-        out.append(("dipole", {"grid": ["random", "molgrid", "uniform", "atomgrid"][k % 4], "natoms": 1 + (k // 4) % 5, "k": k}, 3.0))
+    for k in range(64 if tier == "quick" else 1200):
+        out.append(("dipole", {"grid": DIPOLE_GRIDS[k % len(DIPOLE_GRIDS)], "natoms": 1 + (k // len(DIPOLE_GRIDS)) % 5, "k": k}, 3.0))
+    for k in range(3 if tier == "quick" else 40):
+        for t in TYPES:
+            for dim in ((1, 2, 3) if t in ("cartesian", "radial") else (3,)):
+                for g in ("random", "real"):
+                    if g == "real" and dim != 3:
+                        continue
+                    out.append(("centre-list", {"type": t, "dim": dim, "grid": g, "k": k}, 5.0))
     for t in TYPES:
         out.append(("generator", {"type": t}, 1.0))
     for k in range(3 if tier == "quick" else 40):
@@ -244,6 +258,10 @@ def _post_dipole(res, exc, args, kwargs):
         ctx.count("dipole:inadmissible-call")
         return
     subj = f"dipole_moment_of_molecule[{type(g).__name__}]"
+    own = getattr(g, "atcoords", None)
+    if own is not None and not (np.shape(own) == coords.shape and np.array_equal(np.asarray(own, dtype=float), coords)):
+        subj = f"dipole_moment_of_molecule[{type(g).__name__}, grid built on other atom order/positions than the coords argument]"
+        ctx.count("dipole-decided:grid.atcoords differ from coords argument")
     _check_mass_table(ctx, gu)
     if exc is not None:
         ctx.fail("dipole-nuclear-minus-electronic", subj, f"raised:{type(exc).__name__}", detail={"error": str(exc)[:300]})
@@ -269,6 +287,11 @@ def _post_dipole(res, exc, args, kwargs):
     if not worst <= TOL:
         # quantised description: which simple wrong formula matches
         alts = {"nuclear+electronic": nuc + ele, "electronic-nuclear": ele - nuc, "about-origin": (coords.astype(ld) * z[:, None]).sum(axis=0) - (pts.astype(ld) * wr[:, None]).sum(axis=0)}
+        own = getattr(g, "atcoords", None)
+        if own is not None and np.shape(own) == coords.shape:  # positions stored on the grid object used instead of the argument
+            oc = np.asarray(own, dtype=ld)
+            ocm = (oc * masses[:, None]).sum(axis=0) / masses.sum()
+            alts["uses-positions-stored-on-the-grid"] = ((oc - ocm) * z[:, None]).sum(axis=0) - ((pts.astype(ld) - ocm) * wr[:, None]).sum(axis=0)
         sig = "other"
         for name, alt in alts.items():
             if float(np.max(np.abs(got.astype(ld) - alt) / np.where(scale > 0, scale, 1))) <= TOL:
@@ -551,8 +574,18 @@ def run_case(ctx, family, params):
             g = Grid(pts, rng.uniform(0, 1, n))
         elif kind == "molgrid":
             g = _molgrid(rng, atnums, coords)
+        elif kind == "molgrid-permuted" and nat >= 2:
+            perm = np.roll(np.arange(nat), int(rng.integers(1, nat))) if rng.random() < 0.5 else np.arange(nat)[::-1]
+            g = _molgrid(rng, atnums[perm], coords[perm])  # same molecule, atomic grids listed in another order
+        elif kind in ("molgrid-displaced", "molgrid-permuted"):
+            g = _molgrid(rng, atnums, coords + rng.normal(size=coords.shape) * 0.4)  # grid centred on (slightly) other positions
+        elif kind == "molgrid-other-molecule":
+            n2 = int(rng.integers(1, 5))
+            g = _molgrid(rng, rng.integers(1, 55, n2), coords.mean(axis=0) + rng.normal(size=(n2, 3)) * 1.5)
         elif kind == "atomgrid":
             g = _atomgrid(rng, center=coords[0].copy())
+        elif kind == "atomgrid-elsewhere":
+            g = _atomgrid(rng, center=coords.mean(axis=0) + rng.normal(size=3))
         else:
             from grid.cubic import UniformGrid
 
@@ -567,6 +600,8 @@ def run_case(ctx, family, params):
             else:
                 dipole_moment_of_molecule(grid=g, density=rho, coords=coords, charges=charges)
         ctx.case_note("N", int(g.size))
+    elif family == "centre-list":
+        _centre_list(ctx, params)
     elif family == "generator":
         t = params["type"]
         for l in range(0, 13):
@@ -589,6 +624,75 @@ def run_case(ctx, family, params):
         _hostile(ctx, params)
     else:
         raise ValueError(family)
+
+
+def _digest(*arrays):
+    import hashlib
+
+    h = hashlib.blake2b(digest_size=16)
+    for a in arrays:
+        a = np.asarray(a)
+        h.update(repr((a.shape, a.dtype.str)).encode())
+        h.update(np.ascontiguousarray(a).tobytes())
+    return h.hexdigest()
+
+
+def _centre_list(ctx, params):
+    """ONE moments call with centres of very unequal magnitude (1e3 .. 1e11 times the grid extent) before, between and after
+    ordinary centres.  Every column is decided by the attached post-condition against the reference about THAT centre; in
+    addition every column must equal the same call with that centre alone and the call with the centres in reverse order
+    (no carry-over between the entries of the centre list), and the caller's arrays must be unchanged."""
+    from grid.basegrid import Grid
+
+    rng = ctx.rng
+    t, dim, k = params["type"], params["dim"], params["k"]
+    L = int(rng.integers(1 if t == "pure-radial" else 0, 9))
+    if params["grid"] == "real":
+        g, _ = _build_real_grid(rng, str(rng.choice(["atomgrid", "atomgrid-offcentre", "molgrid", "uniform3d", "periodic"])))
+        pts = np.asarray(g.points)
+        scale = float(np.max(np.abs(pts))) + 1e-3
+    else:
+        n = int(rng.integers(2, 300))
+        pts, scale = _random_points(rng, n, dim)
+        g = Grid(pts[:, 0].copy() if (dim == 1 and k % 2 == 0) else pts, _random_weights(rng, n))
+        pts = np.asarray(g.points).reshape(n, -1)
+    f = _random_f(rng, pts, scale) if rng.random() < 0.6 else _gauss_density(rng, pts, pts[:1])
+    m = int(rng.integers(2, 7))
+    c = rng.normal(size=(m, dim)) * scale
+    nfar = int(rng.integers(1, max(2, m // 2 + 1)))
+    where = rng.choice(m, size=nfar, replace=False)
+    if rng.random() < 0.5:
+        where[0] = 0  # a distant centre FIRST
+    ext = float(np.max(np.linalg.norm(pts, axis=1))) + scale
+    for j in where:
+        mag = ext * 10.0 ** (rng.uniform(8, 11) if rng.random() < 0.7 else rng.uniform(3, 8))
+        while True:
+            u = rng.normal(size=dim)
+            u /= np.linalg.norm(u)
+            # harmonic types: keep the direction to the distant centre away from the polar axis (narrow-cone conditioning of
+            # the polar angle is a separate, recorded observation)
+            if t in ("cartesian", "radial") or abs(u[-1]) < 0.9:
+                break
+        c[j] = u * mag
+    subj = f"Grid.moments[{t},{dim}D,{type(g).__name__}]"
+    before = _digest(g.points, g.weights, f, c)
+    with ctx.guard("no-exception", subj):
+        full = np.asarray(g.moments(_order_arg(L, k), c, f, t))
+        S, A, E, _ = c14ref.ref_moments(t, L, pts, g.weights, f, c)
+        scale_rc = A + FLOOR * E + UNDERFLOW
+        worst, wj = 0.0, None
+        for j in range(m):
+            alone = np.asarray(g.moments(L, c[j : j + 1].copy(), f, t))
+            d = float(np.max(np.abs(full[:, j] - alone[:, 0]) / scale_rc[:, j])) if alone.shape == (full.shape[0], 1) else float("inf")
+            if d > worst or d != d:
+                worst, wj = d, j
+        ctx.check("column-equals-call-with-that-centre-alone", subj, worst, 1e-12, sig="distant-centre-earlier-in-the-list" if (wj is not None and any(i < wj for i in where)) else "other", detail={"centre": wj, "distant": sorted(int(i) for i in where), "L": L, "centres": c.tolist()})
+        rev = np.asarray(g.moments(L, c[::-1].copy(), f, t))
+        d = float(np.max(np.abs(full - rev[:, ::-1]) / scale_rc)) if rev.shape == full.shape else float("inf")
+        ctx.check("columns-independent-of-centre-order", subj, d, 1e-12, sig="reversed-list-differs", detail={"distant": sorted(int(i) for i in where), "L": L})
+    ctx.check("arguments-unchanged", subj, _digest(g.points, g.weights, f, c) == before, sig="points/weights/func_vals/centers modified")
+    ctx.case_note("distant_positions", sorted(int(i) for i in where))
+    ctx.case_note("ncent", m)
 
 
 def _hostile(ctx, params):
